@@ -11,6 +11,7 @@ CONSTANTS
   MaxSeq = 2
   ConnTicks = 0
   PubHWM = 8
+  SubHWM = 0
   PushHWM = 3
   Handshake = TRUE
   Defects = {}
